@@ -138,6 +138,9 @@ vf::CaseResult run_case(const std::string &id, const Program &prog, Stats &st) {
           size_t expn = sp->kind == PK_M ? 1 : T.S().lay.uid_at[bk].size() * (PropBank::half(sp->kind) ? 2 : 1);
           if (h.size() != expn) { fail = annot + ": handle of '" + sp->name + "' held on the assigned-to mesh has " + std::to_string(h.size()) + " elements, the mesh now has " + std::to_string(expn); break; }
           for (size_t k = 0; k < h.size(); ++k) (void)h.show(k);
+          // the handle now designates a private property of the mesh: it cannot still claim to be persistent (a stale
+          // flag makes a later set_shared + set_persistent a no-op, and the next copy silently drops the property)
+          if (h.persistent()) { fail = annot + ": handle of '" + sp->name + "' held on the assigned-to mesh still reports persistent() although the property was detached from the mesh's persistent set"; break; }
           bool from_source = false;  // a persistent property of the same name, type and kind on the source is carried over
           { auto q = find_prop_kt(A.S().mesh, sp->kind, sp->type, sp->name); from_source = q && q->persistent(); }
           if (!from_source && find_prop_kt(T.S().mesh, sp->kind, sp->type, sp->name)) { fail = annot + ": old property '" + sp->name + "' of the assigned-to mesh is still findable by name"; break; }
